@@ -247,11 +247,38 @@ package decoder
 
 // ---------------------------------------------------------------- path evaluation leaves the Path as it found it (C11, C20)
 //@ func skipValue(buf, cursor, depth) (c, err)
-//@   props C20 C11
-//@   trusted value skipper; body not yet under contract
+//@   props C20 C11 C06 C05
 //@   requires bufOK(buf, cursor)
-//@   ensures err == nil ==> cursor <= c && c < len(buf)
+//@   ensures err == nil ==> cursor < c && c < len(buf)
 //@   assigns nothing
+//@   loop 1: invariant old(cursor) <= cursor && cursor < len(buf)
+//@   loop 1: decreases len(buf) - cursor
+//@   loop 2: invariant old(cursor) <= cursor && cursor < len(buf) && buf[cursor] != 0
+//@   loop 2: decreases len(buf) - cursor
+//@   loop 3: invariant old(cursor) <= cursor && cursor < len(buf) && buf[cursor] != 0
+//@   loop 3: decreases len(buf) - cursor
+
+//@ func skipObject(buf, cursor, depth) (c, err)
+//@   props C20 C11 C06 C05
+//@   requires bufOK(buf, cursor)
+//@   ensures err == nil ==> cursor < c && c < len(buf)
+//@   assigns nothing
+//@   loop 1: invariant old(cursor) <= cursor && cursor < len(buf)
+//@   loop 1: decreases len(buf) - cursor
+//@   loop 1: let outer := cursor
+//@   loop 2: invariant outer <= cursor && cursor < len(buf) && buf[cursor] != 0
+//@   loop 2: decreases len(buf) - cursor
+
+//@ func skipArray(buf, cursor, depth) (c, err)
+//@   props C20 C11 C06 C05
+//@   requires bufOK(buf, cursor)
+//@   ensures err == nil ==> cursor < c && c < len(buf)
+//@   assigns nothing
+//@   loop 1: invariant old(cursor) <= cursor && cursor < len(buf)
+//@   loop 1: decreases len(buf) - cursor
+//@   loop 1: let outer := cursor
+//@   loop 2: invariant outer <= cursor && cursor < len(buf) && buf[cursor] != 0
+//@   loop 2: decreases len(buf) - cursor
 
 //@ func (*stringDecoder).decodeByte(d, buf, cursor) (res, c, err)
 //@   props C20 C11
